@@ -20,6 +20,8 @@ import (
 //	                         so that an escape that climbs above the root still hits something
 //	r/a/wd                   the store's working directory (only place that may change)
 //	r/a/victim, a/victim2, a/outdir/keep, a/pkg/keep, a/sub/keep     siblings of the working directory
+//	r/a/wd.lock, a/wd-backup/keep, a/wdx   siblings whose names start with the working directory's name
+//	r/e1/e2/wd               alternative place of the working directory ("chain" layout): e1 and e2 hold nothing else
 //	r/victim, r/outdir/keep  one level higher
 //	r/cwd/                   process working directory: secret, victim, x, pkg/d/keep, outdir/keep
 //	r/tmp                    TMPDIR: only oras_file_* may appear
@@ -73,7 +75,7 @@ func mustWrite(path, body string, mode os.FileMode) error {
 	return os.Chmod(path, mode)
 }
 
-func newSandbox(pad int, prepop string) (*sandbox, error) {
+func newSandbox(pad int, prepop string, chain bool) (*sandbox, error) {
 	top, err := os.MkdirTemp(jailBase, "c11-")
 	if err != nil {
 		return nil, err
@@ -96,9 +98,19 @@ func newSandbox(pad int, prepop string) (*sandbox, error) {
 	}
 	sb.root = filepath.Join(level, "r")
 	sb.wd = filepath.Join(sb.root, "a", "wd")
+	if chain {
+		// the working directory at the end of a chain of otherwise EMPTY directories:
+		// removing e2 or e1 is a deletion outside the working directory
+		sb.wd = filepath.Join(sb.root, "e1", "e2", "wd")
+		if err := os.MkdirAll(filepath.Dir(sb.wd), 0o755); err != nil {
+			return sb, err
+		}
+	}
 	sb.cwd = filepath.Join(sb.root, "cwd")
 	sb.tmp = filepath.Join(sb.root, "tmp")
 	files := map[string]string{
+		// siblings whose NAME has the working directory's name as a string prefix
+		"a/wd.lock": "LOCK", "a/wd-backup/keep": "KEEP", "a/wdx": "WDX",
 		"a/victim": "VICTIM-a", "a/victim2": "VICTIM2-a", "a/outdir/keep": "KEEP", "a/pkg/keep": "KEEP", "a/sub/keep": "KEEP",
 		"a/new/.keep": "", "victim": "VICTIM-root", "outdir/keep": "KEEP",
 		"cwd/secret": "SECRET", "cwd/victim": "VICTIM-cwd", "cwd/x": "X-cwd", "cwd/pkg/d/keep": "KEEP", "cwd/outdir/keep": "KEEP",
@@ -156,7 +168,10 @@ func newSandbox(pad int, prepop string) (*sandbox, error) {
 			return nil
 		}
 		if p == sb.wd {
-			return filepath.SkipDir
+			if d.IsDir() {
+				return filepath.SkipDir
+			}
+			return nil // the store made a FILE of its working directory (title "."): SkipDir would skip its siblings
 		}
 		if d.Type().IsRegular() {
 			if fi, err := d.Info(); err == nil {
@@ -216,7 +231,10 @@ func (sb *sandbox) snap() (snapshot, error) {
 			return err
 		}
 		if p == sb.wd {
-			return filepath.SkipDir
+			if d.IsDir() {
+				return filepath.SkipDir
+			}
+			return nil // the store made a FILE of its working directory (title "."): SkipDir would skip its siblings
 		}
 		rel, _ := filepath.Rel(sb.top, p)
 		fi, err := os.Lstat(p)
